@@ -54,6 +54,10 @@ def plan(tier: str, seed: int) -> list[dict]:
             add(opt, gen.task_desc(rng, "contmulti", dim=rng.choice([1, 2, 6])), gen.config_dict(rng, opt, max_cycles=1), tag="cont")
             # population sizes above the documented scale that are odd / not multiples of a group size
             add(opt, gen.task_desc(rng, "contmulti"), gen.config_dict(rng, opt, scale=rng.choice([1, 1.5]), plus=rng.choice([1, 3, 5, 7]), max_cycles=rng.choice([2, 3]), jit=rng.random() < 0.5), tag="cont")
+            # long runs at the documented scale: rare branches, late cycles, slow drifts (4 per repetition)
+            for _ in range(4):
+                add(opt, gen.task_desc(rng, rng.choice(["contmulti", "cont"]), dim=rng.choice([2, 3, 4])),
+                    gen.config_dict(rng, opt, scale=1, max_cycles=40, stop="cycles"), tag="long")
             # the documented cycle budget and beyond (defects that only show in later cycles)
             add(opt, gen.task_desc(rng, rng.choice(["contmulti", "cont"])), gen.config_dict(rng, opt, max_cycles=rng.choice([8, 10, 12, 20]), stop="cycles"), tag="cont")
             # solver modes
